@@ -2,6 +2,3 @@
 export GO=/root/go/pkg/mod/golang.org/toolchain@v0.0.1-go1.24.0.linux-amd64/bin/go
 export GOTOOLCHAIN=local GOFLAGS=-mod=mod GOPROXY=off GOSUMDB=off
 export PATH=/root/go/pkg/mod/golang.org/toolchain@v0.0.1-go1.24.0.linux-amd64/bin:$PATH
-# --- temporary development throttle (many engineers share the machine); removed before the final sweep ---
-export GOMAXPROCS=4
-export GOFLAGS="-mod=mod -p=4"
